@@ -374,9 +374,19 @@ StreamEmits(cfg, st, s) ==
         ELSE <<>>
   IN CatSeq(perSeg) \o openParts
 
+\* the init segment: served once the playlist is (EXT-X-MAP), declares the stream's tracks; its parameters are
+\* those captured when it was (re)generated
+RenderInit(cfg, st, s) ==
+  IF IsVar(cfg, "mpegts") \/ ~HasContentS(cfg, st) THEN [ok |-> 0]
+  ELSE [ok |-> 1, ct |-> 1,
+        tracks |-> [i \in 1..Len(StreamTracks(cfg, s)) |->
+           LET t == StreamTracks(cfg, s)[i] IN
+           [t |-> t, scale |-> cfg.tracks[t].rate, gen |-> IF cfg.tracks[t].k = "v" THEN st.initGen ELSE 1]]]
+
 MRender(cfg, ms) ==
   [ pl   |-> [s \in 1..NS(cfg) |-> RenderPL(cfg, ms.st[s])],
-    emit |-> CatSeq([s \in 1..NS(cfg) |-> StreamEmits(cfg, ms.st[s], s)]) ]
+    emit |-> CatSeq([s \in 1..NS(cfg) |-> StreamEmits(cfg, ms.st[s], s)]),
+    init |-> [s \in 1..NS(cfg) |-> RenderInit(cfg, ms.st[s], s)] ]
 
 \* after rendering, the listed fragments count as seen
 MarkSeen(cfg, ms) ==
